@@ -21,6 +21,7 @@ import (
 	"fmt"
 	"runtime"
 	"sync/atomic"
+	"unsafe"
 )
 
 const (
@@ -131,20 +132,25 @@ func (m *manager) Reset() error {
 func (m *manager) Pick() Poll {
 START:
 	// fast path
+	vp(vpPmStatus, unsafe.Pointer(m), 0, 0)
 	if atomic.LoadInt32(&m.status) == managerInitialized {
 		return m.balance.Pick()
 	}
 	// slow path
 	// try to get initializing lock failed, wait others finished the init work, and try again
+	vp(vpPmStatus, unsafe.Pointer(m), 1, 0)
 	if !atomic.CompareAndSwapInt32(&m.status, managerUninitialized, managerInitializing) {
+		vp(vpPmStatus, unsafe.Pointer(m), 3, 1)
 		runtime.Gosched()
 		goto START
 	}
 	// adjust polls
 	// m.Run() will finish very quickly, so will not many goroutines block on Pick.
+	vp(vpPmRun, unsafe.Pointer(m), 0, 0)
 	_ = m.Run()
 
 	//nolint:staticcheck // SA9003: empty branch
+	vp(vpPmStatus, unsafe.Pointer(m), 2, 0)
 	if !atomic.CompareAndSwapInt32(&m.status, managerInitializing, managerInitialized) {
 		// SetNumLoops called during m.Run() which cause CAS failed
 		// The polls will be adjusted next Pick
